@@ -28,6 +28,12 @@ Theorem C12_extract_sound : forall node_hash maxtx m root ms,
 Proof. exact extract_sound. Qed.
 Print Assumptions C12_extract_sound.
 
+(* the reported matches come in block order: strictly increasing positions, no position twice *)
+Theorem C12_matches_in_block_order : forall node_hash maxtx m root ms,
+  maxtx < 2 ^ 31 -> extract node_hash maxtx m = Ok (root, ms) -> Sorted.StronglySorted pos_lt ms.
+Proof. exact extract_matches_increasing. Qed.
+Print Assumptions C12_matches_in_block_order.
+
 (* the tree of [C12_extract_sound] is unique: the serialisation of well-shaped trees is prefix-free *)
 Theorem C12_parse_unique : forall n h pos t t' (r1 r2 : list N) (q1 q2 : list hash),
   shape n h pos t -> shape n h pos t' ->
